@@ -80,6 +80,7 @@ def gen_case(rng):
     nd = len(sp["dims"])
     by = rng.choice(['label', 'label', 'position'])
     tolmode = rng.choice([None, None, None, 'tol', 'nloc'])
+    huge = tolmode is None and gen.make_huge(sp, rng)
     idx = []
     kinds = []
     for d in range(nd):
@@ -87,6 +88,8 @@ def gen_case(rng):
             ik = rng.choice(['near', 'near', 'nearlist', 'scalar', 'full', 'mask'])
         else:
             ik = rng.choice(IDX_KINDS + ['scalar', 'list', 'full'])
+            if huge and ik == 'wrongkind':
+                ik = 'absent'       # (a float cannot represent these labels: "the same label as a float" is ill-defined)
         if ik in ('near', 'nearlist'):
             lab = sp["labels"][d]
             def near():
